@@ -197,6 +197,12 @@ OPS.append(("a pushBack m", "a pushBack m", mk_ins("a", "", lambda h: h["m"], la
 OPS.append(("a append [7,a]", "a append [7, a]", mk_ins("a", "", lambda h: [7, h["a"]], lambda c, v: c.extend(v))))
 OPS.append(("a append [7,[a],8]", "a append [7, [a], 8]", mk_ins("a", "", lambda h: [7, [h["a"]], 8], lambda c, v: c.extend(v))))
 OPS.append(("c append [7,m]", "c append [7, m]", mk_ins("c", "", lambda h: [7, h["m"]], lambda c, v: c.extend(v))))
+# cycles through BOTH container kinds, entered from the array side with every inserting operator
+OPS.append(("a set [0,m]", "a set [0, m]", mk_ins("a", "", lambda h: h["m"], lambda c, v: (c.append(None) if not c else None, c.__setitem__(0, v)))))
+OPS.append(("c set [0,[m]]", "c set [0, [m]]", mk_ins("c", "", lambda h: [h["m"]], lambda c, v: (c.append(None) if not c else None, c.__setitem__(0, v)))))
+OPS.append(("a pushBack [m]", "a pushBack [m]", mk_ins("a", "", lambda h: [h["m"]], lambda c, v: c.append(v))))
+OPS.append(("m set [k,c]", 'm set ["k", c]', mk_ins("m", "", lambda h: h["c"], lambda c, v: c.__setitem__("k", v))))
+OPS.append(("m set [k,[a]]", 'm set ["k", [a]]', mk_ins("m", "", lambda h: [h["a"]], lambda c, v: c.__setitem__("k", v))))
 # the KEY holds the map
 OPS.append(("m set [[m],1]", 'm set [[m], 1]', mk_ins("m", "", lambda h: [h["m"]], lambda c, v: None)))
 
